@@ -49,9 +49,9 @@ class HarnessError(Exception):
     """A failure of the machinery, never reported as a violation or a pass"""
 
 
-class HarnessTimeout(BaseException):
-    """Wall-clock backstop fired (BaseException so that asyncio's callback
-       wrapper cannot swallow it)"""
+class HarnessTimeout(KeyboardInterrupt):
+    """Wall-clock backstop fired.  asyncio's Handle._run swallows every
+       BaseException except SystemExit/KeyboardInterrupt, hence the base."""
 
 
 def real_now():
